@@ -104,7 +104,7 @@ def n_fds():
 def eval_history(state, arg):
     stream, sub, fixed_ops = arg
     rng = random.Random(sub)
-    pkg = docgen.gen_package(random.Random(sub), docgen.Knobs(max_blocks=3, max_runs=4, links=0.45, link_mixed_format=0.5))
+    pkg = docgen.gen_package(random.Random(sub), docgen.Knobs(max_blocks=4, max_runs=3, links=0.45, link_mixed_format=0.5, lists=0.55, tables=0.15))
     data = pkg.to_bytes()
     html = rng.random() < 0.4
     dup = rng.random() < 0.7
@@ -174,6 +174,23 @@ def eval_history(state, arg):
                 n_made = len(made)
                 try:
                     if op[0] == "read":
+                        if (not closed and op[1] in (("plain", "officeDocument"), ("runs", "officeDocument"), ("doc",), ("text",),
+                                                     ("docruns",)) and rng.random() < 0.5):
+                            # a partial extraction through the reader API first (File.get_text(elem)):
+                            # it needs nothing the following full read does not need, and must not
+                            # influence it (list numbering does not advance on re-reading)
+                            try:
+                                f0 = d.docx_reader.file_of_type("officeDocument")
+                                ps = [e for e in f0.root_element.iter() if isinstance(e.tag, str) and e.tag.endswith("}p")]
+                                numbered = [e for e in ps if any(isinstance(k.tag, str) and k.tag.endswith("}numPr") for k in e.iter())]
+                                if numbered and rng.random() < 0.7:
+                                    ps = numbered[1:] or numbered
+                                if ps:
+                                    f0.get_text(ps[rng.randrange(len(ps))])
+                                    if "partial_read" not in res["features"]:
+                                        res["features"].append("partial_read")
+                            except Exception:  # noqa: BLE001
+                                pass
                         v = getattr(d, attr_name(op[1]))
                         if freeze(v) != fresh[op[1]]:
                             res["fails"].append(["pure_function", f"{attr_name(op[1])} differs from a fresh object's value"
